@@ -58,10 +58,11 @@ ALL_OPS = ["VaddV", "VsubV", "VmulV", "VdivV", "VaddS", "VsubS", "VmulS", "VdivS
 
 
 # ------------------------------------------------------------------ model -> code
-def gen_cases(ctx, mode, consts, label, zerovar=False, simulate=None, timeout=3000):
+def gen_cases(ctx, mode, consts, label, zerovar=False, simulate=None, timeout=3000, special=False):
     """Run the case enumeration; returns (path of the ndjson file, TlcResult)."""
     out = ctx.path("cases-%s.ndjson" % label)
-    c = dict(Mode='"%s"' % mode, ZeroVar="TRUE" if zerovar else "FALSE", Emit="TRUE", Sim="FALSE")
+    c = dict(Mode='"%s"' % mode, ZeroVar="TRUE" if zerovar else "FALSE", Emit="TRUE", Sim="FALSE",
+             Special="TRUE" if special else "FALSE")
     c.update({k: str(v) for k, v in consts.items()})
     kw = {}
     if simulate:
@@ -96,11 +97,12 @@ def run_replay(ctx, binary, cases, mode, label, env=None, timeout=3000):
 def merge_summary(total, s):
     for k in ("records", "cases", "concrete_cases", "scalar_cases", "mismatches"):
         total[k] = total.get(k, 0) + s.get(k, 0)
-    for k in ("by_op", "recv_kinds"):
+    for k in ("by_op", "recv_kinds", "both_deviate"):
         d = total.setdefault(k, {})
         for a, b in s.get(k, {}).items():
             d[a] = d.get(a, 0) + b
     total.setdefault("pairs", set()).update(s.get("pairs", []))
+    total.setdefault("both_deviate_examples", {}).update(s.get("both_deviate_examples", {}))
     return total
 
 
